@@ -659,8 +659,10 @@ def infContent (e : Entry) (crc : Nat) : Bytes :=
   padLeft 6 48 (hexU e.fileLength) ++ [32] ++
   (if e.isLocked then strBytes "Locked " else []) ++ strBytes "CRC=" ++ padLeft 4 48 (hexU crc) ++ [10]
 
+/-- host file name of an extracted file (after the repair: '/' becomes '_') -/
 def extractName (ctxDir : Nat) (e : Entry) : Bytes :=
-  if e.directory == ctxDir then rtrimB e.nameStr else [e.directory, 46] ++ rtrimB e.nameStr
+  (if e.directory == ctxDir then rtrimB e.nameStr else [e.directory, 46] ++ rtrimB e.nameStr).map
+    (fun c => if c == 47 then 95 else c)
 
 def extractLoop (dest : Bytes) (ctxDir : Nat) (data : Media) : List Entry → List (Bytes × Bytes) → CmdRes
   | [], files => .done true { files := files }
